@@ -14,8 +14,22 @@ for sid in sorted(os.listdir(os.path.join(ROOT, "seeded"))):
     verd = []
     for p, v in sorted(r.get("checks", {}).items()):
         verd.append("%s: %s" % (p, {"failing-input": "**failing input**", "no-failing-input-found": "no-failing-input-found", "none": "MISSED"}[v["verdict"]]))
-    rows.append("| `%s` | %s | %s | %s |" % (sid, ", ".join(m["breaks"]), m["needs_to_manifest"].replace("|", "/"), "; ".join(verd) or "not run yet"))
-table = "| seeded change | breaks | needs, to manifest | quick checks run and their verdict |\n|---|---|---|---|\n" + "\n".join(rows)
+    # proof obligations alone (tools/run_seeded.py --obligations: regeneration from the changed source + lake build + axiom audit, no sampling)
+    ob = json.load(open(os.path.join(d, "obligations.json"))) if os.path.exists(os.path.join(d, "obligations.json")) else None
+    if ob is None:
+        obl = "not run"
+    else:
+        parts = []
+        for p_, v in sorted(ob.items()):
+            if not v["broken"]:
+                parts.append("%s: hold" % p_)
+            else:
+                mods = sorted(set(w.replace("AsamCmp.Props.", "").replace("AsamCmp.Lemmas.", "L.") for b in v["broken"] for w in b.split() if w.startswith("AsamCmp.")))
+                parts.append("%s: **break** (%s)" % (p_, ", ".join(mods[:4]) + (" …" if len(mods) > 4 else "")))
+        obl = "; ".join(parts)
+    rows.append("| `%s` | %s | %s | %s | %s |" % (sid, ", ".join(m["breaks"]), m["needs_to_manifest"].replace("|", "/"), "; ".join(verd) or "not run yet", obl))
+table = ("| seeded change | breaks | needs, to manifest | quick checks run and their verdict | proof obligations alone (translated source vs theorems) |\n"
+         "|---|---|---|---|---|\n" + "\n".join(rows))
 p = os.path.join(ROOT, "DESIGN.md")
 s = open(p).read()
 B, E = "<!-- SEEDED-TABLE-BEGIN -->", "<!-- SEEDED-TABLE-END -->"
